@@ -22,7 +22,8 @@ BOUNDS = {
     'quick': 'lemmas on meshes n1d in {2,3,4} with free complex entries: get_raw_power (cross = auto, pointwise), shift_field_fft (pointwise, '
              'interlacing phase exp(i d/2 (kx+ky+kz)) with fftfreq frequencies, odd and even n1d), normalize_field and _normalize (pointwise affine), '
              'invariance of |delta_k|^2 under a common unit phase per mode; wiring of calc_power for paste in {TSC,CIC} x compensated x interlaced x '
-             '{auto, same particles as second field, different second field} x poles on nmesh=2 with 3 symbolic particles',
+             '{auto, same particles as second field, different second field} x poles on nmesh=2 with 3 symbolic particles'
+             '; also: compensated cross=auto wiring also at nmesh=3 (single-thread binning)',
     'thorough': 'lemmas additionally on n1d = 5, 6; wiring additionally on nmesh = 3',
 }
 OUTSIDE = 'the FFT itself (contract assumed, see above); painting: additivity over particles, whole-cell roll and periodic wrap are C06, thread-count ' \
